@@ -263,6 +263,7 @@ type c05App struct {
 	Ret  resp.Value `json:"ret"`
 	Err  string     `json:"err,omitempty"`
 	DB   int        `json:"db"`
+	Warm bool       `json:"warm,omitempty"` // the same request is sent once before the executor is registered
 }
 
 func evalC05App(c c05App) *Failure {
@@ -271,6 +272,15 @@ func evalC05App(c c05App) *Failure {
 	var gotCmd string
 	var gotArgs []string
 	var gotDB, n int
+	if c.Warm {
+		// the same spelling is requested BEFORE the application registers (or replaces) the executor
+		pre := append([]resp.Bin{resp.Bin(c.Sent)}, c.Args...)
+		data, _ := encodeReqs([][]resp.Bin{pre})
+		if o := connsim.Serve(srv, connsim.NewPreloaded(7, [][]byte{data}), serveTimeout()); o.TimedOut || o.Panic != nil {
+			return failf("c05|app|warmup", "request before registration: timeout=%v panic=%v", o.TimedOut, o.Panic)
+		}
+		rec.Reset()
+	}
 	srv.RegisterExexutor(c.Name, func(conn *redis.Conn, cmd string, args redis.Arguments) (*redis.Message, error) {
 		n++
 		gotConn, gotCmd, gotDB = conn, cmd, conn.Database()
@@ -423,7 +433,10 @@ func TestC05(t *testing.T) {
 			name = "X" + name
 		}
 		g := &cmdspec.G{T: rt}
-		c := c05App{Name: name, Sent: g.Casing(name), DB: rapid.IntRange(0, 15).Draw(rt, "db"), Ret: genReplyValue().Draw(rt, "ret")}
+		if rapid.IntRange(0, 4).Draw(rt, "override") == 0 {
+			name = rapid.SampledFrom([]string{"GET", "PING", "HKEYS", "ZADD"}).Draw(rt, "builtin") // the application replaces a built-in executor
+		}
+		c := c05App{Name: name, Sent: g.Casing(name), DB: rapid.IntRange(0, 15).Draw(rt, "db"), Ret: genReplyValue().Draw(rt, "ret"), Warm: rapid.Bool().Draw(rt, "warm")}
 		if rapid.IntRange(0, 4).Draw(rt, "err") == 0 {
 			c.Err = "ERR " + rapid.StringMatching(`[a-z ]{0,10}`).Draw(rt, "errtext")
 		}
